@@ -21,6 +21,7 @@ import pickle
 from pathlib import Path
 
 from ...Progress import Progress
+from ...VerifTrace import emit as verif_emit
 from ...Surface.ConstructSurfaceT4 import construct_surface_t4
 from ...Surface.Duplicates import remove_duplicate_surfaces, renumber_surfaces
 from ...Volume.ConstructVolumeT4 import (construct_volume_t4,
@@ -96,9 +97,13 @@ def convertMCNPGeometry(mcnp_parser, lattice_params, args):
         dic_volume = renumber_surfaces(dic_volume, renumber)
         # the helper planes for unions may be duplicates of earlier surfaces
         union_ids = tuple(renumber[union_id] for union_id in union_ids)
+        verif_emit('dedup', volumes=dic_volume, numbering=dic_surface_t4,
+                   renumber=renumber)
 
     remove_empty_volumes(dic_volume, union_ids)
+    verif_emit('pruned', volumes=dic_volume, numbering=dic_surface_t4)
     remove_unused_volumes(dic_volume)
+    verif_emit('final', volumes=dic_volume, numbering=dic_surface_t4)
 
     return (dic_surface_mcnp, dic_surface_t4, dic_volume, mcnp_new_dict,
             skipped_cells)
